@@ -300,3 +300,41 @@ Definition direct_callers_ok (l : list (string * string * string)) : bool :=
 (* the handlers whose guard folds case (strings.EqualFold): informational, computed from the generated table *)
 Definition folding_handlers (hs : list handler_row) : list (string * string) :=
   map (fun r => (h_url r, h_name r)) (filter (fun r => match h_kind r with CmpEqualFold => true | _ => false end) hs).
+
+(* app/keepers/keepers.go, per keeper: every constructor call that receives an authority-like argument (the variable
+   authAddr or a NewModuleAddress(..) expression) must receive the GOVERNANCE module address — the variable authAddr
+   (whose binding is pinned by authaddr_expected) or the expression itself — and every keeper known to take an
+   authority must still be in the list (a constructor that no longer gets one is a missing row). *)
+Definition authority_arg_ok (a : string) : bool :=
+  String.eqb a "authAddr" || String.eqb a "authtypes.NewModuleAddress(govtypes.ModuleName)" ||
+  String.eqb a "authtypes.NewModuleAddress(govtypes.ModuleName).String()".
+
+Definition keeper_ctor_expected : list (string * string) :=
+ [("appKeepers.ConsensusParamsKeeper", "consensusparamkeeper.NewKeeper");
+  ("appKeepers.AccountKeeper", "authkeeper.NewAccountKeeper");
+  ("appKeepers.BankKeeper", "bankkeeper.NewBaseKeeper");
+  ("appKeepers.StakingKeeper", "stakingkeeper.NewKeeper");
+  ("appKeepers.MintKeeper", "mintkeeper.NewKeeper");
+  ("appKeepers.DistrKeeper", "distrkeeper.NewKeeper");
+  ("appKeepers.SlashingKeeper", "slashingkeeper.NewKeeper");
+  ("appKeepers.CrisisKeeper", "crisiskeeper.NewKeeper");
+  ("appKeepers.UpgradeKeeper", "upgradekeeper.NewKeeper");
+  ("appKeepers.IBCKeeper", "ibckeeper.NewKeeper");
+  ("appKeepers.IBCTransferKeeper", "ibctransferkeeper.NewKeeper");
+  ("appKeepers.FeeMarketKeeper", "feemarketkeeper.NewKeeper");
+  ("evmKeeper", "evmkeeper.NewKeeper");
+  ("appKeepers.Erc20Keeper", "erc20keeper.NewKeeper");
+  ("appKeepers.BscKeeper", "crosschainkeeper.NewKeeper");
+  ("appKeepers.PolygonKeeper", "crosschainkeeper.NewKeeper");
+  ("appKeepers.AvalancheKeeper", "crosschainkeeper.NewKeeper");
+  ("appKeepers.EthKeeper", "crosschainkeeper.NewKeeper");
+  ("appKeepers.ArbitrumKeeper", "crosschainkeeper.NewKeeper");
+  ("appKeepers.OptimismKeeper", "crosschainkeeper.NewKeeper");
+  ("appKeepers.Layer2Keeper", "crosschainkeeper.NewKeeper");
+  ("appKeepers.TronKeeper", "crosschainkeeper.NewKeeper");
+  ("_govKeeper", "govkeeper.NewKeeper");
+  ("appKeepers.GovKeeper", "fxgovkeeper.NewKeeper")].
+
+Definition keeper_authorities_ok (l : list (string * string * string)) : bool :=
+  forallb (fun r => match r with (_, _, a) => authority_arg_ok a end) l &&
+  forallb (fun e => existsb (fun r => match r with (k, c, _) => String.eqb k (fst e) && String.eqb c (snd e) end) l) keeper_ctor_expected.
